@@ -669,4 +669,60 @@ theorem link_busy_count {n : Nat} {s : St} (hb : BarrierME.Inv n s.b) (hl : Link
   have h5 := hl.recvd
   omega
 
+/-! ### the execution record only grows -/
+
+theorem dStep_executed {n : Nat} {nh : Nat → Nat → Nat} {d d' : Deliver.St} {l : Deliver.Label}
+    (h : Deliver.step n nh d l = some d') : ∃ t, d'.executed = d.executed ++ t := by
+  cases l with
+  | async r uid dest direct =>
+    simp only [Deliver.step] at h; split at h
+    · cases h; exact ⟨[], by simp⟩
+    · cases h
+  | isend r hop =>
+    simp only [Deliver.step] at h; split at h
+    · cases h; exact ⟨[], by simp⟩
+    · cases h
+  | recvBegin r src seq =>
+    simp only [Deliver.step] at h; split at h
+    · cases h; exact ⟨[], by simp⟩
+    · cases h
+  | exec r uid =>
+    simp only [Deliver.step] at h; split at h
+    · cases h; exact ⟨[(r, uid)], rfl⟩
+    · cases h
+  | fwd r uid =>
+    simp only [Deliver.step] at h; split at h
+    · split at h
+      · cases h; exact ⟨[], by simp⟩
+      · cases h
+    · cases h
+  | recvEnd r =>
+    simp only [Deliver.step] at h; split at h
+    · cases h; exact ⟨[], by simp⟩
+    · cases h
+
+theorem dRun_executed {n : Nat} {nh : Nat → Nat → Nat} {d d' : Deliver.St} (ls : List Deliver.Label)
+    (h : Deliver.run n nh d ls = some d') : ∃ t, d'.executed = d.executed ++ t := by
+  induction ls generalizing d with
+  | nil => simp only [Deliver.run] at h; cases h; exact ⟨[], by simp⟩
+  | cons l ls ih =>
+    simp only [Deliver.run] at h
+    cases hst : Deliver.step n nh d l with
+    | none => rw [hst] at h; cases h
+    | some d1 =>
+      rw [hst] at h
+      obtain ⟨t1, h1⟩ := dStep_executed hst
+      obtain ⟨t2, h2⟩ := ih h
+      exact ⟨t1 ++ t2, by rw [h2, h1, List.append_assoc]⟩
+
+theorem run_append {n : Nat} {nh : Nat → Nat → Nat} {s s1 s2 : St} (a b : List Label)
+    (h1 : run n nh s a = some s1) (h2 : run n nh s1 b = some s2) : run n nh s (a ++ b) = some s2 := by
+  induction a generalizing s with
+  | nil => simp only [run] at h1; cases h1; exact h2
+  | cons l ls ih =>
+    simp only [List.cons_append, run] at h1 ⊢
+    cases hst : step n nh s l with
+    | none => rw [hst] at h1; cases h1
+    | some s' => rw [hst] at h1; simp only; exact ih h1
+
 end YgmVerif.Comm
